@@ -57,6 +57,11 @@ impl Poly1305 {
         state
     }
 
+    #[cfg(dryoc_verif)]
+    pub fn verif_buf_len(&self) -> usize {
+        self.buffer.len()
+    }
+
     pub fn update(&mut self, input: &[u8]) {
         let mut m = input;
         if !self.buffer.is_empty() {
